@@ -1,13 +1,15 @@
 import LicenseExpr.Lemmas.Order
+import LicenseExpr.Lemmas.Idem
 import LicenseExpr.Model.Api
 /-!
 # C07 — simplification yields one canonical form per rewrite class
 
-Proved here: the normal form (`C07_nf`). Idempotence and invariance of the text under the listed
-rewrites are stated in full below as `C07_idem_statement` / `C07_rewrite_statement`; what is proved
-of them is named `…_partial`. The hypothesis `RenderDistinct` that invariance needs is forced: for
-the exception symbol `a` next to the plain symbol `a` the order of the result depends on the order
-of the input (known finding K2).
+Proved here: the normal form (`C07_nf`) and idempotence as *recomputation* (`C07_idem`: simplifying a
+simplified expression returns it unchanged; the source short-cuts this with its `iscanonical` flag,
+the theorem says the short-cut changes nothing). Invariance of the text under the listed rewrites is
+stated as `C07_rewrite_statement` and not proved; the hypothesis `RenderDistinct` it needs is forced:
+for the exception symbol `a` next to the plain symbol `a` the order of the result depends on the
+order of the input (known finding K2).
 -/
 namespace LE
 
@@ -28,6 +30,27 @@ theorem C07_nf_any_order {A : Type} [DecidableEq A] (lt : Expr A → Expr A → 
 /-- the order of symbols is total on different renderings: the "fixed total order" of the statement -/
 theorem C07_atom_order_total (a b : Atom) (h : a.render ≠ b.render) : ltAtom a b = true ∨ ltAtom b a = true :=
   strLt_total _ _ h
+
+/-- **C07 (idempotent)**: `simplify()` of a simplified expression is that expression — for every tree
+    whose nodes have operands, for the comparison boolean.py uses and for any asymmetric one. -/
+theorem C07_idem (e : Expr Atom) (hw : WFargs e) : simplifyE (simplifyE e) = simplifyE e :=
+  simp_idem _ (ltE_asymm ltAtom ltAtom_asymm) e hw
+
+theorem C07_idem_any_order {A : Type} [DecidableEq A] (lt : Expr A → Expr A → Bool)
+    (hasym : ∀ a b, lt a b = true → lt b a = false) (e : Expr A) (hw : WFargs e) : simp lt (simp lt e) = simp lt e :=
+  simp_idem lt hasym e hw
+
+/-- no operand of a simplified node absorbs another: the absorption rule has nothing left to do -/
+theorem C07_absorb_free (e : Expr Atom) (hw : WFargs e) : NFA (ltE ltAtom) (simplifyE e) :=
+  simp_nfa _ (ltE_asymm ltAtom ltAtom_asymm) e hw
+
+/-- unequal atoms of the tree render differently -/
+def RenderDistinct (e : Expr Atom) : Prop := ∀ a ∈ literals e, ∀ b ∈ literals e, a.render = b.render → a = b
+
+/-- the full rewrite-invariance statement (not proved; checked by the correspondence run on 1-4 random rewrites per tree) -/
+def C07_rewrite_statement : Prop :=
+  ∀ (op : Op) (l l' : List (Expr Atom)), l.Perm l' → RenderDistinct (.node op l) → l ≠ [] →
+    renderStr (simplifyE (.node op l)) = renderStr (simplifyE (.node op l'))
 
 /-- a sorted operand list is left alone by the sort: the last step of `simplify()` is idempotent -/
 theorem C07_sort_idem_partial {A : Type} [DecidableEq A] (lt : Expr A → Expr A → Bool)
